@@ -65,5 +65,25 @@ pub mod stdx {
 
     pub assume_specification<T, A: Allocator> [ std::collections::VecDeque::<T, A>::is_empty ] (v: &std::collections::VecDeque<T, A>) -> (r: bool)
         ensures r == (v@.len() == 0);
+
+    // the rest of the slice sort family, so that changed code that calls it still resolves: permutation + order by the
+    // key / comparator; nothing is promised about the relative order of equal elements beyond what std documents
+    pub assume_specification<T, K: Ord, F: FnMut(&T) -> K> [ <[T]>::sort_by_key ] (s: &mut [T], f: F)
+        ensures final(s)@.to_multiset() == old(s)@.to_multiset(),
+                final(s)@.len() == old(s)@.len(),
+                forall|x: T| #[trigger] final(s)@.contains(x) <==> old(s)@.contains(x),
+                forall|i: int, j: int| #![trigger final(s)@[i], final(s)@[j]] 0 <= i < j < final(s)@.len() ==> exists|k1: K, k2: K| #[trigger] f.ensures((&final(s)@[i],), k1) && #[trigger] f.ensures((&final(s)@[j],), k2) && vstd::std_specs::cmp::OrdSpec::cmp_spec(&k1, &k2) != std::cmp::Ordering::Greater;
+    pub assume_specification<T: Ord> [ <[T]>::sort_unstable ] (s: &mut [T])
+        ensures final(s)@.to_multiset() == old(s)@.to_multiset(),
+                final(s)@.len() == old(s)@.len(),
+                forall|x: T| #[trigger] final(s)@.contains(x) <==> old(s)@.contains(x),
+                forall|i: int, j: int| #![trigger final(s)@[i], final(s)@[j]] 0 <= i < j < final(s)@.len() ==> vstd::std_specs::cmp::OrdSpec::cmp_spec(&final(s)@[i], &final(s)@[j]) != std::cmp::Ordering::Greater;
+    pub assume_specification<T, F: FnMut(&T, &T) -> std::cmp::Ordering> [ <[T]>::sort_unstable_by ] (s: &mut [T], f: F)
+        ensures final(s)@.to_multiset() == old(s)@.to_multiset(),
+                final(s)@.len() == old(s)@.len(),
+                forall|x: T| #[trigger] final(s)@.contains(x) <==> old(s)@.contains(x),
+                forall|i: int, j: int| #![trigger final(s)@[i], final(s)@[j]] 0 <= i < j < final(s)@.len() ==> exists|o: std::cmp::Ordering| #[trigger] f.ensures((&final(s)@[i], &final(s)@[j]), o) && o != std::cmp::Ordering::Greater;
+    pub assume_specification<T> [ <[T]>::reverse ] (s: &mut [T])
+        ensures final(s)@ == old(s)@.reverse();
 }
 } // verus!
